@@ -22,7 +22,11 @@ pub struct ReMatcher<'a> {
 impl Operation {
     #[verifier::external_body]
     pub fn matches_iter<'a>(&'a self, matcher: &'a ReMatcher<'a>, position: usize) -> (r: AbsIter)
+        // every operator is started inside the input (several of them compute `search.len() - position`) and yields
+        // positions inside the input (A-ENGINE)
+        requires position <= matcher.search@.len(),
         ensures r@ == iter_pure(self, matcher.program.flags, matcher.search@, position as int),
+            forall|k: int| 0 <= k < r@.len() ==> #[trigger] r@[k] <= matcher.search@.len(),
     { unimplemented!() }
 }
 
